@@ -404,7 +404,7 @@ impl Check for C09 {
         }
         // (b) the position x length x offset grid (stratified sample; thorough = much denser)
         let mut r = g.rng(9);
-        let n = g.count(120_000, 6_000_000);
+        let n = g.count(300_000, 20_000_000);
         for _ in 0..n {
             let class = r.below(GRID_CLASSES.len() as u64) as i64;
             let len = match r.below(4) {
